@@ -68,7 +68,12 @@ class Aggregate(Contract):
     prop = "C15"
     file = RM
     func = f"{CLS}.run_model_no_trade"
-    name = "country_loop"
+    merge = True
+
+    def __init__(self, incl, excl):
+        # case split on whether an inclusion / exclusion list is present (run in parallel; together exhaustive)
+        self.incl, self.excl = incl, excl
+        self.name = f"country_loop[{'inclusion' if incl else 'no_inclusion'},{'exclusion' if excl else 'no_exclusion'}]"
 
     def build(self, S):
         K, LE, LS = S.int("K"), S.int("LE"), S.int("LS")
@@ -87,6 +92,8 @@ class Aggregate(Contract):
         if S.concrete:
             raise NotImplementedError("replay of the loop contract is not supported (pandas table)")
         K, LE, LS, code, cname, pop, ratio, exf, skf, wE, wS = self.build(S)
+        S.assume(LE > 0 if self.incl else LE == 0)
+        S.assume(LS > 0 if self.excl else LS == 0)
         Kt, LEt, LSt = unwrap(K).t, unwrap(LE).t, unwrap(LS).t
         ctx = S.ctx
 
@@ -117,7 +124,8 @@ class Aggregate(Contract):
                                      "country": Sym(cname(it), "str"), "__row__": Sym(it, "int")}, None, True)
 
         rows = Arr(unwrap(K), fn=lambda i: (Sym(i, "int") if not isinstance(i, int) else i, row(i)), dtype="object", is_nd=False)
-        table = Obj(ClassVal("DataFrame", [], {}, None), {"iterrows": Native("DataFrame.iterrows", lambda ctx_: rows)})
+        from pyvc.pdmodel import TableVal
+        table = TableVal(rows)
         S.I.table_hook = lambda path: table
 
         def run_country(interp, ctx_, fv, args, kwargs):
@@ -129,7 +137,6 @@ class Aggregate(Contract):
             (RM, f"{CLS}.get_countries_to_run_and_skip"): _selection_summary(unwrap(LE), unwrap(LS), exf, skf),
             (RM, f"{CLS}.apply_custom_parameters"): lambda interp, ctx_, fv, args, kwargs: args[1],
             (RM, f"{CLS}.verify_country_data"): lambda interp, ctx_, fv, args, kwargs: None,
-            (RM, f"{CLS}.fill_data_for_map"): lambda interp, ctx_, fv, args, kwargs: None,
             (RM, f"{CLS}.run_optimizer_for_country"): run_country,
         }
 
@@ -204,12 +211,12 @@ class ResultsDict(Contract):
         S.assume(And(*[And(p > 0, r >= 0) for p, r in zip(pops, ratios)]))
         rows = [(k, OpenDict("row", {"iso3": c, "population": unwrap(pops[k]), "country": "country " + c, "__row__": k}, None, True))
                 for k, c in enumerate(self.CODES)]
-        table = Obj(ClassVal("DataFrame", [], {}, None), {"iterrows": Native("DataFrame.iterrows", lambda ctx_: list(rows))})
+        from pyvc.pdmodel import TableVal
+        table = TableVal(list(rows))
         S.I.table_hook = lambda path: table
         self.summaries = {
             (RM, f"{CLS}.apply_custom_parameters"): lambda interp, ctx_, fv, args, kwargs: args[1],
             (RM, f"{CLS}.verify_country_data"): lambda interp, ctx_, fv, args, kwargs: None,
-            (RM, f"{CLS}.fill_data_for_map"): lambda interp, ctx_, fv, args, kwargs: None,
             (RM, f"{CLS}.run_optimizer_for_country"): lambda interp, ctx_, fv, args, kwargs: (
                 unwrap(ratios[args[1].entries["__row__"]]), "d", ("result of row", args[1].entries["__row__"])),
         }
@@ -240,13 +247,14 @@ class ResultsDict(Contract):
 
 CONTRACTS = ([Selection(p) for p in [(), (False,), (True,), (False, False), (True, True), (True, False), (False, True),
                                      (True, True, True), (True, False, True), (False, False, False)]]
-             + [Aggregate()]
+             + [Aggregate(i, e) for i in (False, True) for e in (False, True)]
              + [ResultsDict(s) for s in [(), ("AAA",), ("!BBB",), ("AAA", "CCC"), ("!AAA", "!CCC"), ("!AAA", "BBB"),
-                                         ("ZZZ",), ("!ZZZ",)]])
+                                         ("ZZZ",), ("!ZZZ",), ("AAA", "BBB", "AAA")]])
 TRUSTED = [
     "machine floats treated as mathematical reals",
-    "pandas.read_csv / iterrows modelled as a sequence of rows (iso3, population, country); geopandas map filling dropped",
-    "callees run_optimizer_for_country, apply_custom_parameters, verify_country_data enter through their contracts "
+    "pandas.read_csv / iterrows / column comparison / row selection / concat modelled as a sequence of rows (pdmodel.py); the "
+    "geopandas world map is an unknown table (a country may or may not have a polygon), writes into it are dropped",
+    "fill_data_for_map is executed from source; callees run_optimizer_for_country, apply_custom_parameters, verify_country_data enter through their contracts "
     "(returns a ratio >= 0 / returns the row / returns nothing); populations and ratios are not NaN (C16's concern)",
     "induction schema behind prefix sums",
     "Selection contract: lists of literal length <= 3 (all '!' patterns); the loop contract itself is for selection lists of any length",
